@@ -128,6 +128,8 @@ def make_chooser(case):
     st = {"left": budgets.pop(0) if budgets else None}
 
     def pb(cands, last):
+        if last is None:
+            return cands[0]                   # the first stint uses the first budget
         if last in cands and (st["left"] is None or st["left"] > 0):
             if st["left"] is not None:
                 st["left"] -= 1
@@ -205,7 +207,30 @@ def run_sched(case):
             return ("relR", ki)
         return ("odd", ki, o, nw)
 
-    inner = M.MemoryCacher()
+    disk_dir = None
+    if case.get("inner") == "disk":
+        # the real DiskCacher as the inner cacher: it writes in place, so a half-written file is visible to exists()
+        disk_dir = tempfile.mkdtemp(prefix="c19sched")
+        dcache = M.DiskCacher(disk_dir)
+
+        class DiskInner:
+            def __contains__(self, key):
+                return key in dcache
+
+            def rmv(self, key):
+                dcache.rmv(key)
+
+            def get_set(self, key, getter):
+                g = None
+                if callable(getter):
+                    def g():
+                        return ("%d,%d,%d" % (p[0], p[1] if p[1] is not None else 0, p[2]) for p in getter())
+                with dcache.get_set(key, g) as f:
+                    val = [[int(x) for x in ln.strip().split(",")] for ln in f]
+                return nullcontext(val)
+        inner = DiskInner()
+    else:
+        inner = M.MemoryCacher()
 
     def others(d, ki, tid):
         return [t for t in d.get(ki, []) if t != tid]
@@ -286,7 +311,8 @@ def run_sched(case):
             start_write(ki, "populates")
             try:
                 s.log(("ccreate", ki))            # a DiskCacher creates the (incomplete) file here; the entry is complete only at cpop
-                s.yp()
+                if disk_dir is None:
+                    s.yp()                        # (with the real DiskCacher the next yield is inside the getter, when the file exists)
                 try:
                     with inner.get_set(key, getter) as val:
                         pass
@@ -467,6 +493,10 @@ def run_sched(case):
     undo = patch_time(M, FakeTime(s, realtime))
     try:
         status = s.run([body] * n)
+    except BaseException:
+        if disk_dir:
+            shutil.rmtree(disk_dir, ignore_errors=True)
+        raise
     finally:
         for name, val in undo:
             setattr(M, name, val)
@@ -483,6 +513,8 @@ def run_sched(case):
                 cache.append(token(ki, val))
         else:
             cache.append(None)
+    if disk_dir:
+        shutil.rmtree(disk_dir, ignore_errors=True)
     return {
         "status": status, "events": [[t, list(e)] for t, e in s.events], "steps": s.steps,
         "live": list(getattr(s, "live_at_end", [])), "depth_live": snap.get("depth_live", []), "wait_edges": snap.get("wait_edges", []), "repaired": repaired,
